@@ -348,11 +348,38 @@ def r6(repo, res):
         second = list(itertools.islice(w.call("solutions", m, [0.0], {}), 3))
         if not (len(first) == 1 and second and set(second[0][2]) == {"x_0", "z_0"}):
             extra_bad.setdefault("twice-used", f"after extending the model the enumeration yields {second[:1]}; the optimum sets x_0 and z_0")
+        # the absolute-value helper over a sequence that names one error term twice (an error counted for two regions): 2 |E|
+        m, lib = new_model(w, "rep")
+        x = w.call("addVar", m, [], dict(vtype="B", name="x_0"))
+        e = w.call("addVar", m, [], dict(lb=-lib.infinity(), ub=lib.infinity(), name="E_a"))
+        f_ = w.call("addVar", m, [], dict(lb=-lib.infinity(), ub=lib.infinity(), name="E_b"))
+        for ex_, tg_, nm_ in ((2 * x + e, 0.75, "CA"), (x + f_, 0.5, "CB")):
+            w.call("addConstr", m, [ex_ <= tg_], dict(name=nm_))
+            w.call("addConstr", m, [ex_ >= tg_], dict(name=nm_))
+        w.call("setObjective", m, [w.call("abssum", m, [[e, f_, e]], {}) + 0.1 * x], {})
+        got = list(itertools.islice(w.call("solutions", m, [0.0], {}), 3))
+        want_rep = min(2 * abs(0.75 - 2 * v_) + abs(0.5 - v_) + 0.1 * v_ for v_ in (0, 1))   # = 2.0 at x = 0
+        if not (got and abs(got[0][1] - want_rep) < 1e-7):
+            extra_bad.setdefault("repeated", f"abssum([E_a, E_b, E_a]): first yielded objective {got[0][1] if got else None}, exhaustive optimum {want_rep}")
+        # a penalised slack created with default bounds is non-negative (the default of both sibling wrappers and of gurobipy: lb = 0)
+        m, lib = new_model(w, "slack")
+        xs2 = [w.call("addVar", m, [], dict(vtype="B", name=f"x_{i}")) for i in range(3)]
+        sl = w.call("addVar", m, [], dict(name="S"))
+        w.call("addConstr", m, [xs2[0] + xs2[1] + xs2[2] - sl <= 2], dict(name="CAP"))
+        w.call("addConstr", m, [xs2[0] + xs2[1] + xs2[2] >= 1], dict(name="MIN"))
+        w.call("setObjective", m, [0.2 * xs2[0] + 0.3 * xs2[1] + 0.4 * xs2[2] + 0.7 * sl], {})
+        got = list(itertools.islice(w.call("solutions", m, [0.0], {}), 3))
+        if not (got and abs(got[0][1] - 0.2) < 1e-7 and set(got[0][2]) == {"x_0"}):
+            extra_bad.setdefault("default-bounds", f"slack with default bounds: first yielded {got[:1]}, the optimum with S >= 0 is 0.2 at x_0 (S = 0)")
     except Unfoldable as e:
         res.err("C05.R6", f"solver wrapper outside the folding language: {e}")
         return
     except Raised as e:
         extra_bad.setdefault("near", f"raises {e}")
+    res.ob("C05.R6", cls, cls, "repeated" not in extra_bad, expected="abssum over a sequence that names a variable twice counts its absolute value twice",
+           found=extra_bad.get("repeated", "ok"), clause="at any optimum the helper variable equals the sum of absolute values", key="models:repeated-term")
+    res.ob("C05.R6", cls, cls, "default-bounds" not in extra_bad, expected="a variable created without bounds is non-negative (lower bound 0, as in the sibling wrapper's library)",
+           found=extra_bad.get("default-bounds", "ok"), clause="for every model built through the solver interface, the first yielded solution is a global optimum", key="models:default-bounds")
     res.ob("C05.R6", cls, cls, "near" not in extra_bad, expected="the stop test uses the solver precision (1e-5): a runner-up 4e-3 beyond the cut-off is not yielded, one 2e-6 beyond it is",
            found=extra_bad.get("near", "ok"), clause="every yielded solution is ... within the gap of the optimum", key="models:near-ties")
     res.ob("C05.R6", cls, cls, "twice-used" not in extra_bad, expected="a model enumerated, extended and enumerated again yields the active binaries of the extended model",
@@ -378,6 +405,12 @@ def run(repo, res):
 
 
 MUTANTS = [
+    dict(name="R6 abssum terms keyed by variable name (seeded C05_d3 shape)", module="lpinterface", expect="C05.R6",
+         edits=[("        vv = []\n        for i, v in enumerate(vars):", "        vv = {}\n        for i, v in enumerate(vars):"),
+                ("            vv.append(coeff * absvar)", "            vv[name] = coeff * absvar"),
+                ("        return self.quicksum(vv)\n", "        return self.quicksum(vv.values())\n")]),
+    dict(name="R6 default lower bound of a continuous variable is minus infinity (seeded C05_d1 shape)", module="lpinterface", expect="C05.R6",
+         old='        lb = kwargs.get("lb", 0)', new='        lb = kwargs.get("lb", -self.INF)'),
     dict(name="R6 solver told to stop within one percent of the bound (seeded C05_c1 shape)", module="lpinterface", expect=["C05.R6"],
          old="        status = self.model.Solve()\n", new="        params = self.ortools.MPSolverParameters()\n        params.SetDoubleParam(params.RELATIVE_MIP_GAP, 0.01)\n        status = self.model.Solve(params)\n"),
     dict(name="benign: solver parameters without a gap", module="lpinterface", kind="benign",
